@@ -203,6 +203,10 @@ def _save_file(
         tensor = value.const_value
         assert tensor is not None
         if tensor.nbytes < size_threshold_bytes:
+            if isinstance(tensor, ir.ExternalTensor):
+                # A small tensor is stored in the model file, like ir.save() does: it must not
+                # keep pointing at the data file it came from
+                value.const_value = ir.external_data.convert_tensors_from_external([tensor])[0]
             continue
         tensors_to_save.append(tensor)
         values_to_save.append(value)
